@@ -147,6 +147,7 @@ class _BaseFrameField2DVertices(FrameField):
 
         if self.mesh.faces.has_attribute(singul_attr_name):
             singuls = self.mesh.faces.get_attribute(singul_attr_name)
+            singuls.clear() # flags of a previous call (possibly of another field on the same mesh) must not survive
         else:
             singuls = self.mesh.faces.create_attribute(singul_attr_name, int)
         for id_face,(A,B,C) in enumerate(self.mesh.faces):
